@@ -1598,4 +1598,150 @@ theorem sentKinds_reproduces {L : List Kind} {x : Ent} (h : KInv L x) (r : List 
     simp only [h0, h2, if_true, Bool.false_eq_true, if_false]
     exact kinv_reproduces_full h k
 
+/-! ### the last edit wins, for merges and for kinds -/
+
+theorem merge_lookup (s o : Props) (k : Key) : lookup (s.merge o).m k = mergeExpect s.m o.m o.del k := by
+  rw [merge_m, lookup_eraseAll, lookup_overlay]
+  unfold mergeExpect
+  by_cases hd : k ∈ o.del
+  · simp [hd]
+  · simp only [hd, if_false, List.contains_eq_mem, decide_false, Bool.false_eq_true]
+    cases lookup o.m k <;> rfl
+
+theorem addKind_kinds (x : Ent) (k : Kind) : (x.addKind k).kinds = kadd x.kinds k := rfl
+theorem addKind_added (x : Ent) (k : Kind) : (x.addKind k).added = kadd x.added k := rfl
+theorem addKind_removed (x : Ent) (k : Kind) : (x.addKind k).removed = kremove x.removed k := rfl
+theorem deleteKind_kinds (x : Ent) (k : Kind) : (x.deleteKind k).kinds = kremove x.kinds k := rfl
+theorem deleteKind_added (x : Ent) (k : Kind) : (x.deleteKind k).added = kremove x.added k := rfl
+theorem deleteKind_removed (x : Ent) (k : Kind) : (x.deleteKind k).removed = kadd x.removed k := rfl
+
+/-- `AddKinds(ks)`: every listed kind ends up present, recorded as added, not recorded as deleted -/
+theorem addKinds_post {L : List Kind} {x : Ent} (h : KInv L x) (ks : List (Option Kind)) (k : Kind) (hk : some k ∈ ks) :
+    k ∈ (x.addKinds ks).kinds ∧ k ∈ (x.addKinds ks).added ∧ k ∉ (x.addKinds ks).removed := by
+  induction ks generalizing x with
+  | nil => cases hk
+  | cons a ks ih =>
+    cases a with
+    | none =>
+      rw [addKinds_none]
+      exact ih h (by rw [List.mem_cons] at hk; exact hk.resolve_left (by simp))
+    | some k' =>
+      rw [addKinds_some]
+      have h' := kinv_addKind h k'
+      by_cases hin : some k ∈ ks
+      · exact ih h' hin
+      · have hkk : k = k' := by
+          rw [List.mem_cons] at hk
+          rcases hk with e | e
+          · injection e
+          · exact absurd e hin
+        subst hkk
+        -- the rest of the list does not mention k: its status stays what addKind k made it
+        have frame : ∀ (y : Ent) (ks : List (Option Kind)), KInv L y → some k ∉ ks →
+            (k ∈ (y.addKinds ks).kinds ↔ k ∈ y.kinds) ∧ (k ∈ (y.addKinds ks).added ↔ k ∈ y.added) ∧
+            (k ∈ (y.addKinds ks).removed ↔ k ∈ y.removed) := by
+          intro y ks
+          induction ks generalizing y with
+          | nil => intro _ _; exact ⟨Iff.rfl, Iff.rfl, Iff.rfl⟩
+          | cons b ks ih2 =>
+            intro hy hb
+            rw [List.mem_cons, not_or] at hb
+            cases b with
+            | none => rw [addKinds_none]; exact ih2 y hy hb.2
+            | some j =>
+              rw [addKinds_some]
+              have hne : k ≠ j := fun e => hb.1 (by rw [e])
+              obtain ⟨a1, a2, a3⟩ := ih2 (y.addKind j) (kinv_addKind hy j) hb.2
+              refine ⟨a1.trans ?_, a2.trans ?_, a3.trans ?_⟩
+              · rw [addKind_kinds, mem_kadd]; exact ⟨fun hh => hh.resolve_right hne, Or.inl⟩
+              · rw [addKind_added, mem_kadd]; exact ⟨fun hh => hh.resolve_right hne, Or.inl⟩
+              · rw [addKind_removed, mem_kremove hy.nodupR]; exact ⟨fun hh => hh.1, fun hh => ⟨hh, hne⟩⟩
+        obtain ⟨f1, f2, f3⟩ := frame (x.addKind k) ks h' hin
+        refine ⟨f1.2 ?_, f2.2 ?_, fun hh => ?_⟩
+        · rw [addKind_kinds, mem_kadd]; exact Or.inr rfl
+        · rw [addKind_added, mem_kadd]; exact Or.inr rfl
+        · have := f3.1 hh
+          rw [addKind_removed, mem_kremove h.nodupR] at this
+          exact this.2 rfl
+
+/-- `DeleteKinds(ks)`: every listed kind ends up absent, recorded as deleted, not recorded as added -/
+theorem deleteKinds_post {L : List Kind} {x : Ent} (h : KInv L x) (ks : List Kind) (k : Kind) (hk : k ∈ ks) :
+    k ∉ (x.deleteKinds ks).kinds ∧ k ∈ (x.deleteKinds ks).removed ∧ k ∉ (x.deleteKinds ks).added := by
+  induction ks generalizing x with
+  | nil => cases hk
+  | cons k' ks ih =>
+    rw [deleteKinds_cons]
+    have h' := kinv_deleteKind h k'
+    by_cases hin : k ∈ ks
+    · exact ih h' hin
+    · have hkk : k = k' := by
+        rw [List.mem_cons] at hk
+        exact hk.resolve_right hin
+      subst hkk
+      have frame : ∀ (y : Ent) (ks : List Kind), KInv L y → k ∉ ks →
+          (k ∈ (y.deleteKinds ks).kinds ↔ k ∈ y.kinds) ∧ (k ∈ (y.deleteKinds ks).added ↔ k ∈ y.added) ∧
+          (k ∈ (y.deleteKinds ks).removed ↔ k ∈ y.removed) := by
+        intro y ks
+        induction ks generalizing y with
+        | nil => intro _ _; exact ⟨Iff.rfl, Iff.rfl, Iff.rfl⟩
+        | cons j ks ih2 =>
+          intro hy hb
+          rw [List.mem_cons, not_or] at hb
+          rw [deleteKinds_cons]
+          have hne : k ≠ j := hb.1
+          obtain ⟨a1, a2, a3⟩ := ih2 (y.deleteKind j) (kinv_deleteKind hy j) hb.2
+          refine ⟨a1.trans ?_, a2.trans ?_, a3.trans ?_⟩
+          · rw [deleteKind_kinds, mem_kremove hy.nodupK]; exact ⟨fun hh => hh.1, fun hh => ⟨hh, hne⟩⟩
+          · rw [deleteKind_added, mem_kremove hy.nodupA]; exact ⟨fun hh => hh.1, fun hh => ⟨hh, hne⟩⟩
+          · rw [deleteKind_removed, mem_kadd]; exact ⟨fun hh => hh.resolve_right hne, Or.inl⟩
+      obtain ⟨f1, f2, f3⟩ := frame (x.deleteKind k) ks h' hin
+      refine ⟨fun hh => ?_, f3.2 ?_, fun hh => ?_⟩
+      · have := f1.1 hh
+        rw [deleteKind_kinds, mem_kremove h.nodupK] at this
+        exact this.2 rfl
+      · rw [deleteKind_removed, mem_kadd]; exact Or.inr rfl
+      · have := f2.1 hh
+        rw [deleteKind_added, mem_kremove h.nodupA] at this
+        exact this.2 rfl
+
+/-! ### the property part needs no hypothesis on the kinds -/
+
+/-- both entities' PROPERTIES satisfy the invariant (nothing is said about kinds) -/
+def SPInv (L : Loaded) (st : St) : Prop := ∀ e, Inv ((st.get e).base L) (st.get e).props
+
+theorem spinv_put {L : Loaded} {st : St} (h : SPInv L st) (e : Bool) {x : Ent} (hx : Inv (x.base L) x.props) :
+    SPInv L (st.put e x) := by
+  intro f; rw [get_put]; by_cases hf : f = e
+  · rw [if_pos hf]; exact hx
+  · rw [if_neg hf]; exact h f
+
+theorem spinv_init (L : Loaded) : SPInv L (St.init L) := by
+  intro e
+  have : (St.init L).get e = L.ent := by cases e <;> rfl
+  rw [this]
+  exact inv_load L.store
+
+theorem spinv_step {L : Loaded} {st : St} (h : SPInv L st) (o : Op) : SPInv L (st.step false o) := by
+  cases o with
+  | set e k v => exact spinv_put h e (inv_set (h e) k v)
+  | setAll e kvs => exact spinv_put h e (inv_setAll (h e) kvs)
+  | delete e k => exact spinv_put h e (inv_delete (h e) k)
+  | read e => exact h
+  | clone e f =>
+    refine spinv_put h f ?_
+    show Inv ((st.get e).base L) (st.get e).props.clone
+    rw [clone_eq]; exact h e
+  | pmerge e f => exact spinv_put h e (inv_congr (base_or L _ _) (inv_merge_gen (h e) (h f)))
+  | addKinds e ks => exact spinv_put h e (by rw [addKinds_props, addKinds_base]; exact h e)
+  | deleteKinds e ks => exact spinv_put h e (by rw [deleteKinds_props, deleteKinds_base]; exact h e)
+  | nmerge e f => exact spinv_put h e (inv_congr (base_or L _ _) (inv_merge_gen (h e) (h f)))
+  | rmerge e f => exact spinv_put h e (inv_congr (base_or L _ _) (inv_merge_gen (h e) (h f)))
+  | strip e ks => exact spinv_put h e (inv_strip _ ks)
+  | json e => exact spinv_put h e (by rw [ent_json_roundtrip]; exact h e)
+
+theorem spinv_run {L : Loaded} {st : St} (h : SPInv L st) (ops : List Op) : SPInv L (st.run false ops) := by
+  induction ops generalizing st with
+  | nil => exact h
+  | cons o ops ih => exact ih (spinv_step h o)
+
 end Dawgs.C12
